@@ -34,3 +34,27 @@ def bool_reference(spec):
     cells = sum(max(1, int(__import__('numpy').prod(ev.shape[x]))) for x in ev.nts)
     x, rounds = ev.kleene(cells + 3)
     return x, rounds
+
+
+def gradient_sensitivity(fp, start, cot, names, B, log_domain=False):
+    """First-order bound on how much the gradient moves when the fixed point is only known to within B (sup norm):
+    |g(x*) - g(x* - B)| per weight entry, computed with the oracle's own formulas (iterates approach x* from below).
+    For the Log semiring, cot is the cotangent on log Z and the result is for d/d log w."""
+    import torch
+    te = fp['te']
+    v = fp['vec']
+    vp = torch.where(v > 0, (v - B).clamp_min(0.0), v)
+    Jp = te.jacobian(vp)
+    def grads(vec, J):
+        Z = te.unpack(vec)[start]
+        if log_domain:
+            mask = Z > 0
+            c_eff = torch.where(mask, cot / torch.where(mask, Z, torch.ones_like(Z)), torch.zeros_like(Z))
+            g = te.gradients(vec, J, c_eff, start, names)
+            return {n: (g[n] * te.w[n]).numpy() for n in names}
+        g = te.gradients(vec, J, cot, start, names)
+        return {n: g[n].numpy() for n in names}
+    g0 = grads(v, fp['J'])
+    g1 = grads(vp, Jp)
+    import numpy as np
+    return {n: np.abs(g0[n] - g1[n]) for n in names}
